@@ -125,7 +125,7 @@ def run(ctx):
     for p, o_ in [(1, 1), (2, 2), (3, 1)]:
         expect_ve('residue:%d:%d' % (p, o_), 'Residue(pole_order=%d, order=%d)' % (p, o_), lambda: limits.Residue(lambda z: 1 / z, pole_order=p, order=o_), {'pole_order': p, 'order': o_})
     expect_ok('residue', 'Residue default order', lambda: limits.Residue(lambda z: 1 / z, pole_order=2), {})
-    for path in ('diagonal', 'Radial ', ''):
+    for path in ('diagonal', 'Radial ', '', 'straight', 'ray', 'radials', 'spirals', 'sideways', 'r', 's', 'SPIRAL'):
         expect_ve('path:%s' % path, 'Limit(path=%r)' % path, lambda: limits.Limit(np.sin, path=path), {'path': path})
     expect_ok('path', 'Limit(path="spiral")', lambda: limits.Limit(np.sin, path='spiral'), {})
     items = [('C11_%d' % s, HDR + 'Definition cases := [\n' + ';\n'.join(cases[s:s + 400]) + '].\nFixpoint failing (i : nat) (l : list _) : list nat := match l with [] => [] | c :: t => if ok c then failing (S i) t else i :: failing (S i) t end.\nEval vm_compute in (List.length cases, failing 0%nat cases).\n')
